@@ -1,6 +1,6 @@
 """C01 - the pairing is the BLS12-381 optimal-ate pairing (cubed): bilinear, non-degenerate, order r."""
 import os
-import vlib
+import vlib, fam_consts
 from engine import Run, replay_event
 from fam_pairing import PAIR, key_of, class_of, confirm_factory, gating, only_ops
 
@@ -13,6 +13,7 @@ RULE = ("oracle = textbook Miller function over the bits of |x| with chord/tange
 
 def run(tier):
     run = Run("C01", tier)
+    fam_consts.audit(run, tier)          # the numeric constants this property rests on, from the source text (MC_Consts)
     sc = vlib.scratch()
     run.mc("MC_Pairing", timeout=900)
     cases = run.generate("Gen_Pairing", "single", env={"WHAT": "single"})
